@@ -74,9 +74,10 @@ def k1_instants(thread_evs: List[Ev]) -> set:
     return zero & closes & opens
 
 
-def well_formed(evs: List[Ev], raw_events: List[dict], rounded_away_device_ok: bool = False) -> Optional[str]:
+def well_formed(evs: List[Ev], raw_events: List[dict], rounded_away_device_ok: bool = False, shared_device_corr_ok: bool = False) -> Optional[str]:
     """rounded_away_device_ok: a device record shorter than 1us whose inward rounding gives end < ts is accepted (link structure
-    does not depend on its extent)."""
+    does not depend on its extent).  shared_device_corr_ok: several device activities may carry the correlation id of one launch call
+    (CUDA graph replay); for properties that only need "the launch call of a device activity"."""
     if not evs:
         return "no complete event"
     e0 = raw_events[0] if raw_events else None
@@ -88,7 +89,7 @@ def well_formed(evs: List[Ev], raw_events: List[dict], rounded_away_device_ok: b
             return f"negative correlation id on event {e.id}"
         if e.corr != -1:
             k = (e.corr, e.device_side)
-            if k in seen:
+            if k in seen and not (shared_device_corr_ok and e.device_side):
                 return f"correlation id {e.corr} occurs twice on one side (events {seen[k]}, {e.id})"
             seen[k] = e.id
         if e.cat in DEVICE_CATS and e.stream <= 0:
